@@ -253,6 +253,13 @@ def o_writeread(rec, world, hist):
             needed_reads = stale_and_needed(rec, world)[3]
             if n["id"] not in needed_reads:
                 continue
+            if not success:
+                # in a run that failed the source's own read may never have happened: only when there are more
+                # reads than the other entries account for was the source read for certain (C-13, DESIGN 13)
+                others = [m for m in world["nodes"] if m.get("store") == n["store"] and m["id"] != n["id"]
+                          and m["id"] in needed_reads]
+                if len(r_sts) <= len(others) or (rec.op.get("faults") or {}).get("stores"):
+                    continue
             rs = max(x[0] for x in r_sts)
         # calls it depends on: through unregistered nodes and through
         # registered nodes that are themselves out of date (an up-to-date
